@@ -90,6 +90,9 @@ def run_pelt(
 
     # Evolving set of admissible segment starts.
     cost_eval_starts = np.array(([0]), dtype=np.int64)
+    # Length of the first prefix at which each start was found to be prunable.
+    never_pruned = num_obs + min_segment_length + 1
+    start_prune_times = np.array(([never_pruned]), dtype=np.int64)
 
     observation_indices = np.arange(2 * min_segment_length - 1, num_obs).reshape(-1, 1)
     for current_obs_ind in observation_indices:
@@ -97,6 +100,9 @@ def run_pelt(
 
         # Add the next start to the admissible starts set:
         cost_eval_starts = np.concatenate((cost_eval_starts, latest_start))
+        start_prune_times = np.concatenate(
+            (start_prune_times, np.array([never_pruned], dtype=np.int64))
+        )
         cost_eval_ends = np.repeat(current_obs_ind + 1, len(cost_eval_starts))
         cost_eval_intervals = np.column_stack((cost_eval_starts, cost_eval_ends))
         costs = cost.evaluate(cost_eval_intervals)
@@ -109,9 +115,19 @@ def run_pelt(
         prev_cpts[current_obs_ind] = cost_eval_starts[argmin_candidate_cost]
 
         # Trimming the admissible starts set: (reuse the array of optimal costs)
-        cost_eval_starts = cost_eval_starts[
-            candidate_opt_costs + split_cost <= opt_cost[current_obs_ind + 1] + penalty
-        ]
+        # A prunable start is only dominated from the time the prefix it was pruned at
+        # is itself an admissible start, i.e. min_segment_length samples later.
+        prunable = (
+            candidate_opt_costs + split_cost > opt_cost[current_obs_ind + 1] + penalty
+        )
+        start_prune_times = np.where(
+            prunable,
+            np.minimum(start_prune_times, current_obs_ind + 1),
+            start_prune_times,
+        )
+        keep = start_prune_times + min_segment_length > current_obs_ind + 2
+        cost_eval_starts = cost_eval_starts[keep]
+        start_prune_times = start_prune_times[keep]
 
     return opt_cost[1:], get_changepoints(prev_cpts)
 
